@@ -1159,3 +1159,85 @@ def func_case(draw, steer=True, allow_local_memory=False):
         progA.append(Decl("Signal", target, Call(fname, tuple(args))))
         progB += inline(fname, tuple(args), target)
     return Program(tuple(progA)), Program(tuple(progB))
+
+
+# ------------------------------------------------------------------------------------------
+# Layout-heavy programs (C08, C09, C18, C19, C07)
+# ------------------------------------------------------------------------------------------
+
+POLE_OPTIONS = [None, "small", "medium", "big", "substation"]
+
+
+@st.composite
+def spread_program(draw, steer=True, far=True):
+    """User entities 10-60 tiles apart sharing sources (relays needed), high fan-out of single-source
+    consumers, optionally a gated cell / latch (their wires bypass the router) and a scalar block."""
+    pal = Palette(True)
+    types = list(draw(st.permutations(pal.types)))
+    stmts = []
+    ins = []
+    for i in range(draw(st.integers(1, 3))):
+        n = f"in{i + 1}"
+        stmts.append(Decl("Signal", n, SigLit(types.pop(), draw(num(small_int())))))
+        ins.append(n)
+    n_ent = draw(st.integers(1, 7))
+    span = draw(st.sampled_from([8, 12, 20, 30, 45, 60])) if far else 6
+    cells = draw(st.lists(st.tuples(st.integers(-2, 3), st.integers(-2, 2)), min_size=n_ent, max_size=n_ent, unique=True))
+    protos = ["small-lamp", "small-lamp", "inserter", "transport-belt", "assembling-machine-1", "train-stop", "pump", "steel-chest"]
+    for i, (cx, cy) in enumerate(cells):
+        proto = draw(st.sampled_from(protos))
+        props = ()
+        if proto == "train-stop" and draw(st.booleans()):
+            props = (("station", draw(st.sampled_from(["Iron Pickup", "Depot", "A"]))),)
+        if proto in ("inserter", "transport-belt") and draw(st.booleans()):
+            props = (("direction", Num(draw(st.sampled_from([0, 4, 8, 12])))),)
+        if proto == "small-lamp" and draw(st.integers(0, 3)) == 0:
+            props = (("use_colors", Num(1)), ("always_on", Num(1)), ("color_mode", Num(1)))
+        var = f"ent{i + 1}"
+        stmts.append(Decl("Entity", var, Place(proto, Num(cx * span + draw(st.integers(0, 2))), Num(cy * span + draw(st.integers(0, 2))), props)))
+        if proto != "steel-chest" and draw(st.integers(0, 5)) != 0:
+            src = draw(st.sampled_from(ins))
+            k = draw(st.integers(0, 3))
+            if k <= 1:
+                e = Bin(draw(st.sampled_from(CMPS)), Ref(src), draw(num(small_int())))
+            elif k == 2:
+                e = Ref(src)
+            else:
+                e = Bin(draw(st.sampled_from(CMPS)), Bin(draw(st.sampled_from(["+", "*", "%"])), Ref(src), Num(draw(st.integers(2, 7)))), draw(num(small_int())))
+            stmts.append(Assign(var, "enable", e))
+    extra = draw(st.sampled_from(["none", "none", "memory", "latch", "scalar", "fanout"]))
+    if extra == "memory":
+        stmts += [Decl("Signal", "md", SigLit(types.pop(), Num(0))), Decl("Signal", "me", SigLit(types.pop(), Num(0))),
+                  MemDecl("mm", types[0]), Write("mm", Proj(Ref("md"), types[0]), Bin(">", Ref("me"), Num(0))),
+                  Decl("Signal", "mr", Bin("+", MemRead("mm"), Num(1)))]
+    elif extra == "latch":
+        stmts += [Decl("Signal", "ls", SigLit(types.pop(), Num(0))), Decl("Signal", "lt", SigLit(types.pop(), Num(0))),
+                  MemDecl("lm", types[0]), Latch("lm", Num(draw(st.sampled_from([1, 5]))), Bin(">", Ref("ls"), Num(3)), Bin(">", Ref("lt"), Num(3)), True),
+                  Decl("Signal", "lr", MemRead("lm"))]
+    elif extra == "scalar":
+        sub = draw(scalar_program(early_virtual=True, linear=steer, max_stmts=4, max_depth=2))
+        from .lang import prefix_program
+
+        stmts += list(prefix_program(sub, "s_").stmts)
+    elif extra == "fanout":
+        src = ins[0]
+        for j in range(draw(st.integers(3, 9))):
+            stmts.append(Decl("Signal", f"f{j}", Bin(draw(st.sampled_from(["+", "*", ">"])), Ref(src), Num(j + 1))))
+    return Program(tuple(stmts))
+
+
+@st.composite
+def schedule(draw, faults=True):
+    s = {"seed": draw(st.integers(0, 50)), "workers": draw(st.sampled_from([1, 1, 1, 4])),
+         "det_time": draw(st.sampled_from([0.001, 0.01, 0.05, 0.05, 0.5]))}
+    if faults:
+        k = draw(st.integers(0, 9))
+        if k == 0:
+            s["fail_strategies"] = sorted(draw(st.sets(st.integers(0, 5), min_size=1, max_size=6)))
+        elif k == 1:
+            s["fail_routing"] = draw(st.integers(1, 2))
+        elif k == 2:
+            s["fail_strategies"] = list(range(0, 12))  # every strategy "finds nothing": fallback grid
+        elif k == 3:
+            s["untouched"] = True
+    return s
